@@ -7,12 +7,44 @@ pub struct Counting;
 pub static LIVE_BYTES: AtomicIsize = AtomicIsize::new(0);
 pub static LIVE_BLOCKS: AtomicIsize = AtomicIsize::new(0);
 pub static TOTAL_ALLOCATED: AtomicUsize = AtomicUsize::new(0);
+/// log of the request sizes while LOGGING is on (first LOG_CAP requests; LOG_N counts all of them)
+pub const LOG_CAP: usize = 256;
+pub static LOGGING: AtomicUsize = AtomicUsize::new(0);
+pub static LOG_N: AtomicUsize = AtomicUsize::new(0);
+#[allow(clippy::declare_interior_mutable_const)]
+const Z: AtomicUsize = AtomicUsize::new(0);
+pub static LOG: [AtomicUsize; LOG_CAP] = [Z; LOG_CAP];
+
+#[inline]
+fn log(size: usize) {
+    if LOGGING.load(Ordering::SeqCst) != 0 {
+        let i = LOG_N.fetch_add(1, Ordering::SeqCst);
+        if i < LOG_CAP {
+            LOG[i].store(size, Ordering::SeqCst);
+        }
+    }
+}
+
+/// Runs `f` and returns its result with (number of allocation requests, bytes requested, the
+/// first LOG_CAP request sizes). Reallocations count as requests of the new size.
+pub fn measure<R>(f: impl FnOnce() -> R) -> (R, usize, usize, Vec<usize>) {
+    LOG_N.store(0, Ordering::SeqCst);
+    let t0 = total();
+    LOGGING.store(1, Ordering::SeqCst);
+    let r = f();
+    LOGGING.store(0, Ordering::SeqCst);
+    let n = LOG_N.load(Ordering::SeqCst);
+    let bytes = total() - t0;
+    let sizes = (0..n.min(LOG_CAP)).map(|i| LOG[i].load(Ordering::SeqCst)).collect();
+    (r, n, bytes, sizes)
+}
 
 unsafe impl GlobalAlloc for Counting {
     unsafe fn alloc(&self, l: Layout) -> *mut u8 {
         LIVE_BYTES.fetch_add(l.size() as isize, Ordering::SeqCst);
         LIVE_BLOCKS.fetch_add(1, Ordering::SeqCst);
         TOTAL_ALLOCATED.fetch_add(l.size(), Ordering::SeqCst);
+        log(l.size());
         System.alloc(l)
     }
     unsafe fn dealloc(&self, p: *mut u8, l: Layout) {
@@ -25,6 +57,7 @@ unsafe impl GlobalAlloc for Counting {
         if new_size > l.size() {
             TOTAL_ALLOCATED.fetch_add(new_size - l.size(), Ordering::SeqCst);
         }
+        log(new_size);
         System.realloc(p, l, new_size)
     }
 }
